@@ -53,7 +53,7 @@ def setup():
 def plan(tier, seed):
     N = 10**7 if tier == "quick" else 5 * 10**7
     shards = [("B", lo, min(N, lo + 10 * PACK - 1)) for lo in range(1, N + 1, 10 * PACK)]
-    shards += [("automata", 5 if tier == "quick" else 6), ("beyond",), ("TS", 0), ("TS", 1), ("A",), ("ticks",), ("seq", "TS"), ("seq", "A"), ("seq", "B")]
+    shards += [("automata", 5 if tier == "quick" else 6), ("beyond",), ("TS", 0), ("TS", 1), ("A",), ("ticks",), ("seq", "TS"), ("seq", "A"), ("seq", "B"), ("stray",)]
     shards += [("blocks", B, part) for B in blocks.BLOCKS for part in range(4)]
     return dict(shards=shards, bounds=dict(block_sweep="a 36-line [SyncTrack] slid character by character across text offsets %r" % (blocks.BLOCKS,), B_all_up_to=N, TS_upper="0..64 + 10^k-1", TS_exponent="absent, 0..16", tick_digits="<= 15, leading zeros"), budget_s=900)
 
@@ -205,6 +205,20 @@ def run_shard(shard, ctx):
             check_lines(ctx, ["%s = A 55" % ds], [], [[t, 55]], "tick digit string %r" % ds)
             if t > 0:
                 check_lines(ctx, ["%s = B 120500" % ds], [], [], "tick digit string %r" % ds, exp_b=[[0, float(10**6).hex()], [t, float(120.5).hex()]])
+    elif kind == "stray":
+        # every B / TS / A line is decoded once and from ITS OWN text, whatever unrecognised lines stand next to it
+        # (a dispatcher that carries the previous line's datum over an unrecognised line, or files it under the
+        # last kind tried)
+        good = (("7 = TS 3 1", [[7, 3, 2]], [], None), ("7 = A 55", [], [[7, 55]], None), ("7 = B 120500", [], [], [[0, float(10**6).hex()], [7, float(120.5).hex()]]), ("9 = TS 5", [[9, 5, 4]], [], None))
+        strays = ("", "garbage", "7 = N 0 0", '7 = E "x"', "7 = B x", "7 = TS", "7 = A", "7 = BB 1", "// comment", "7 = S 2 5")
+        for (l1, ts1, a1, b1), (l2, ts2, a2, b2) in itertools.product(good, repeat=2):
+            if l1 == l2 or (b1 and b2):
+                continue
+            eb = b1 or b2
+            for st in strays:
+                for lines in ([l1, st], [st, l1], [l1, st, l2], [l1, st, st, l2], [st, l1, l2, st]):
+                    has2 = l2 in lines
+                    check_lines(ctx, lines, ts1 + (ts2 if has2 else []), a1 + (a2 if has2 else []), "unrecognised line %r next to sync lines" % st, exp_b=(eb if has2 or b1 else [[0, float(10**6).hex()]]))
     elif kind == "seq":
         tempo = ("0 = B 120000", "10 = B 60000", "20 = B 240000")
         if shard[1] == "TS":
